@@ -518,7 +518,10 @@ def make_programs(ctx, n_random):
         r = rng.fork('r%d' % i)
         cfg = G.Cfg(r.choice([1, 1, 2, 2, 3, 4]), r.choice(HINTS), r.chance(1, 2), r.chance(2, 3), fmt=None)
         flagged = r.chance(1, 12)
-        P = G.Program(r, cfg, nsteps=r.range(8, 22), allow_lag=flagged and r.chance(1, 2), allow_cancel_rec=flagged)
+        # (re-opening with shared logs + del_on_close on >1 ranks races: finding KEY_UNLINK, directed case only)
+        reopen = False if (cfg.shared and cfg.delete and cfg.np > 1) else None
+        P = G.Program(r, cfg, nsteps=r.range(8, 22), allow_lag=flagged and r.chance(1, 2), allow_cancel_rec=flagged,
+                      want_reopen=reopen)
         flags = []
         if r.chance(1, 3):
             for q in range(P.np):
